@@ -139,7 +139,8 @@ def block(depth, exclude, outermost=False):
     decl = _decls(lambda: kw('DECLARE'))
     # DECLARE inside the block (MySQL) or in front of its BEGIN (PL/pgSQL nested block)
     return st.tuples(st.one_of(st.none(), st.none(), decl), stmts(depth, exclude), st.one_of(st.none(), st.none(), G.plain_name), st.just(False) if outermost else st.booleans()).map(
-        lambda t: seq(t[0] if t[3] else None, kw('BEGIN'), t[0] if not t[3] else None, t[1], kw('END'), [t[2]] if t[2] else None))
+        lambda t: seq(t[0] if t[3] else None, kw('BEGIN'), kw('ATOMIC') if outermost and t[0] is None and t[2] is None and len(t[1]) % 5 == 0 else None,
+                      t[0] if not t[3] else None, t[1], kw('END'), [t[2]] if t[2] else None))
 
 
 @functools.lru_cache(maxsize=None)
